@@ -37,9 +37,9 @@ CLAIMS.update({
          "sdk BytesSerializable impls only; NOT covered: commands with several identifiers / numeric identifiers (thorough tier, out of memory in this setup), SendMessages with headers, responses (mapper.rs), journal and on-disk encodings, HTTP/JSON, the effect of malformed frames on other connections"),
 })
 PENDING = {
- "C06": "harness file c06_catalogue.rs exists (consumer-group catalogue: unique ids/names, delete, id reuse) but CBMC aborts / exceeds the caps on it; not registered",
- "C08": "harness file c08_consumer_groups.rs exists (assignment exclusivity and balance, rotation) but even a fully concrete re-assignment needs > 6 min of SAT time through the heap-allocated member list; not registered",
- "C18": "harness file c18_dedup.rs exists (dedup branch of Partition::append_messages, 9 equality patterns) but does not finish within the cap; not registered",
+ "C06": "harness file wip/c06_catalogue.rs exists (consumer-group catalogue: unique ids/names, delete, id reuse) but CBMC aborts / exceeds the caps on it; not registered",
+ "C08": "harness file wip/c08_consumer_groups.rs exists (assignment exclusivity and balance, rotation) but even a fully concrete re-assignment needs > 6 min of SAT time through the heap-allocated member list; not registered",
+ "C18": "harness file wip/c18_dedup.rs exists (dedup branch of Partition::append_messages, 9 equality patterns) but does not finish within the cap; not registered",
 }
 NA = {
  "C12": "quantifies over interleavings of tokio tasks, a background persister and lock hand-offs; Kani/CBMC execute one thread and tokio's primitives do not compile under Kani (catch_unwind ICE) - the sequential obligations it rests on are checked under C01/C04 harnesses, not relabelled",
